@@ -264,6 +264,17 @@ def evaluate(ctx, case):
             _apply_ops(mol, ops2)
             if snapshot(cp) != after_c:
                 bad.append("copy-changed-by-original-mutation")
+            # ... and a copy of an object that has been EDITED since it was loaded is a copy of what the object is now,
+            # not of the file it came from (seed C15-12: copy() re-built from the parsed file kept at load time)
+            try:
+                cp2 = mol.copy()
+                if snapshot(cp2) != snapshot(mol) or not (cp2 == mol):
+                    bad.append("copy-of-an-edited-object-not-equal-to-it")
+                cp3 = cp.copy()
+                if snapshot(cp3) != after_c:
+                    bad.append("copy-of-an-edited-copy-not-equal-to-it")
+            except Exception as e:   # noqa: BLE001
+                bad.append("copy-of-an-edited-object-raises-" + type(e).__name__)
             for b in bad:
                 fail("copy:" + b, {"ops": ops[:4]})
             # rebuild the pristine molecule view for the model comparison below
